@@ -430,7 +430,7 @@ func main() {
 			continue
 		}
 		r := prng.ForCase(f.Seed, k)
-		switch r.Weighted([]int{8, 42, 11, 11, 10, 8, 4, 6}) {
+		switch r.Weighted([]int{8, 38, 10, 10, 10, 8, 4, 6, 6}) {
 		case 0:
 			rn.varuintCase(k, r)
 			o.Count("case:varuint")
@@ -464,9 +464,12 @@ func main() {
 		case 6:
 			rn.dagCase(k, r)
 			o.Count("case:item-dag")
-		default:
+		case 7:
 			rn.jsonCase(k, r)
 			o.Count("case:item-json")
+		default:
+			rn.entryCase(k, r)
+			o.Count("case:entry-points")
 		}
 	}
 }
